@@ -146,6 +146,12 @@ def step (s : St) : List String → St × String
       | some (P, p) =>
         let chosen := sel.map fun a => s.arena + int! a
         finishOp s (nat! id) P (deallocateIf P p (fun b => chosen.contains b)) (fun tr => "[" ++ relList s.arena tr ++ "]")
+  | "dift" :: id :: k :: sel =>
+      match getPool s (nat! id) with
+      | none => (s, "bad-pool")
+      | some (P, p) =>
+        let chosen := sel.map fun a => s.arena + int! a
+        finishOp s (nat! id) P (deallocateIfThrow P p (fun b => chosen.contains b) (nat! k)) (fun tr => "[" ++ relList s.arena tr ++ "]")
   | ["dall", id] =>
       match getPool s (nat! id) with
       | none => (s, "bad-pool")
